@@ -73,7 +73,9 @@ class RefPeer:
             'byz_foreign_first': bool(k.get('byz_foreign_first', False)),
             'init_proposal_spi': k.get('init_proposal_spi', r.choice(['empty', 'empty', 'echo'])),
             'mute_after_init': bool(k.get('mute_after_init', False)),     # answers IKE_SA_INIT and nothing else (a peer that dies right then)
+            'zero_lead_secret': bool(k.get('zero_lead_secret', False)),   # picks its DH scalars so that g^ir begins with a zero octet
         }
+        self.r2 = random.Random(f'refpeer-x:{seed}')
         self.secret = bytes(r.getrandbits(8) for _ in range(16))
         self.sessions = {}         # spi_r -> _Sess
         self.by_init = {}          # (spi_i, sha(request)) -> response octets (stateless replies and retransmitted IKE_SA_INIT requests)
@@ -86,6 +88,21 @@ class RefPeer:
     # ------------------------------------------------------------------------------------------ helpers
     def _c(self, k, n=1):
         self.counts[k] = self.counts.get(k, 0) + n
+
+    def _x_for(self, group, peer_public):
+        """The DH scalar of one exchange.  Knob zero_lead_secret: searched (second PRNG, the first one draws as ever) until the shared
+        secret begins with a zero octet - one exchange in 256 does so by itself and RFC 7296 2.14 keeps it at full width."""
+        x = self.r.getrandbits(190) + 2
+        if self.k['zero_lead_secret']:
+            for _ in range(400):
+                try:
+                    if R.dh_shared(group, x, peer_public)[0] == 0:
+                        self._c('zero_lead_secret')
+                        break
+                except Exception:
+                    break
+                x = self.r2.getrandbits(190) + 2
+        return x
 
     def problem(self, kind, detail, **sig):
         self.problems.append({'kind': kind, 'detail': detail, 't': self.w.now, 'sig': sig})
@@ -331,7 +348,7 @@ class RefPeer:
         s = _Sess()
         s.spi_i, s.spi_r = h['spi_i'], self._rb(8)
         s.suite, s.ni, s.nr = suite, no['data'], self._rb(self.k['nonce_len'])
-        x = self.r.getrandbits(190) + 2
+        x = self._x_for(suite.dh, ke['data'])
         try:
             shared = R.dh_shared(suite.dh, x, ke['data'])
         except Exception as ex:
@@ -409,7 +426,7 @@ class RefPeer:
                 if ke is None or ke['group'] != dh:
                     self._c('invalid_ke_on_child')
                     return [self._notify(R.N_INVALID_KE_PAYLOAD, dh.to_bytes(2, 'big'))]
-                x = self.r.getrandbits(190) + 2
+                x = self._x_for(dh, ke['data'])
                 try:
                     shared = R.dh_shared(dh, x, ke['data'])
                 except Exception as ex:
@@ -495,7 +512,7 @@ class RefPeer:
         n = _Sess()
         n.spi_i, n.spi_r = prop['spi'], self._rb(8)
         n.suite, n.ni, n.nr = suite, no['data'], self._rb(self.k['nonce_len'])
-        x = self.r.getrandbits(190) + 2
+        x = self._x_for(suite.dh, ke['data'])
         try:
             shared = R.dh_shared(suite.dh, x, ke['data'])
         except Exception as ex:
